@@ -31,7 +31,7 @@ EXPLANATION = (
     "with the handler set of a reference dictionary model (hence identical to each other). Behaviour of `delete` with no filter at all is only "
     "compared and reported as an observation. "
     "R2: for max_completed in {0,1,2} and every sequence (length <= 3 quick, <= 4 thorough) of upserts (3 ids x running/completed), status "
-    "updates and deletes, after each upsert at least min(max_completed, #terminal handlers) terminal handlers are retained (no eviction while "
+    "updates and deletes (plus, at cap 2, all length-4 histories over {A completed, B completed, B re-opened, B deleted, C completed}: a stale entry behind a live one), after each upsert at least min(max_completed, #terminal handlers) terminal handlers are retained (no eviction while "
     "the number of completed handlers is within the cap; repeated terminal upserts of one handler count once). "
     "R3: in the same sequences no non-terminal handler is ever removed by an upsert, nothing but the upserted handler appears, and the retained "
     "terminal handlers include every handler that is among the newest `max_completed` under both readings of 'most recently completed' (first "
@@ -482,6 +482,12 @@ def rule_r2_r3(chk: Any, h: Harness, depth: int, fixture: bool = False) -> None:
     if depth > 3:
         plans[0] = (1, _evict_ops(["A", "B", "C"], 2), depth)
         plans[1] = (2, _evict_ops(["A", "B", "C"], 2), depth)
+    else:
+        # targeted length-4 histories: a stale queue entry *behind* a live one (completed, then re-opened or deleted, then another completion)
+        a, b, c_ = "A", "B", "C"
+        stale = [(f"upsert({a},completed)", "up", a, "completed"), (f"upsert({b},completed)", "up", b, "completed"), (f"upsert({b},running)", "up", b, "running"),
+                 (f"delete(id=[{b}])", "del", b, None), (f"upsert({c_},completed)", "up", c_, "completed")]
+        plans.append((2, stale, 4))
     if fixture:
         plans = plans[:2]
     for cap, ops, d in plans:
@@ -642,12 +648,15 @@ TWINS: list[Twin] = [
     Twin("memory: delete keeps what it should remove and removes the rest", _PM, "            for handler_id, handler in list(self.handlers.items())\n            if _matches_query(handler, query)", "            for handler_id, handler in list(self.handlers.items())\n            if not _matches_query(handler, query)", "C24.R1"),
     # ---- R2 breaking (new shapes: the unchanged tree already fails repeat / reopen / delete)
     Twin("cap comparison off by one", _PM, "while len(self._terminal_queue) > self.max_completed:", "while len(self._terminal_queue) >= self.max_completed:", "C24.R2"),
-    Twin("every upsert is queued as a completion", _PM, "        if is_terminal_status(handler.status):\n            self._terminal_queue.append(handler.handler_id)\n            self._evict_oldest_completed()", "        self._terminal_queue.append(handler.handler_id)\n        self._evict_oldest_completed()", "C24.R2"),
+    Twin("every upsert is queued as a completion", _PM, "        if is_terminal_status(handler.status):\n            self._terminal_queue[handler.handler_id] = None\n            self._evict_oldest_completed()", "        self._terminal_queue[handler.handler_id] = None\n        self._evict_oldest_completed()", "C24.R2"),
+    Twin("pre-fix shape: a re-opened handler keeps its queue entry", _PM, "        self._terminal_queue.pop(handler.handler_id, None)\n        if is_terminal_status(handler.status):", "        if is_terminal_status(handler.status):", "C24.R2"),
+    Twin("pre-fix shape: delete leaves the queue entry behind", _PM, "            del self.handlers[handler_id]\n            self._terminal_queue.pop(handler_id, None)", "            del self.handlers[handler_id]", "C24.R2"),
+    Twin("pre-fix shape: queue entry only dropped when the new status is terminal", _PM, "        self._terminal_queue.pop(handler.handler_id, None)\n        if is_terminal_status(handler.status):", "        if is_terminal_status(handler.status):\n            self._terminal_queue.pop(handler.handler_id, None)", "C24.R2"),
     Twin("cap applied to all handlers", _PM, "while len(self._terminal_queue) > self.max_completed:", "while len(self.handlers) > self.max_completed and self._terminal_queue:", "C24.R2"),
     # ---- R3 breaking
-    Twin("stale entry evicts a re-opened (running) handler", _PM, "            if not is_terminal_status(handler.status):\n", "            if False:\n", "C24.R3"),
-    Twin("newest completion evicted first", _PM, "handler_id = self._terminal_queue.popleft()", "handler_id = self._terminal_queue.pop()", "C24.R3"),
-    Twin("completions queued at the front", _PM, "self._terminal_queue.append(handler.handler_id)", "self._terminal_queue.appendleft(handler.handler_id)", "C24.R3"),
+    Twin("newest completion evicted first", _PM, "handler_id = next(iter(self._terminal_queue))", "handler_id = next(reversed(self._terminal_queue))", "C24.R3"),
+    Twin("victim chosen by id, not by completion order", _PM, "handler_id = next(iter(self._terminal_queue))", "handler_id = min(self._terminal_queue)", "C24.R3"),
+    Twin("benign: defensive non-terminal guard removed (the queue now holds terminal handlers only)", _PM, "            if not is_terminal_status(handler.status):\n", "            if False:\n", None),
     Twin("uncapped store compares with None", _PM, "        if self.max_completed is None:\n            return\n", "", "C24.R3"),
     # ---- R4 breaking
     Twin("idle_since=None indistinguishable from 'not given'", _PA, "        if not isinstance(idle_since, _Unset):\n            handler.idle_since = idle_since", "        if not isinstance(idle_since, _Unset) and idle_since is not None:\n            handler.idle_since = idle_since", "C24.R4"),
